@@ -149,6 +149,10 @@ def generics(spec):
     if "N" in g:
         ps.append("const N: ::core::primitive::usize" + (" = 2" if spec["gdefault"] else ""))
         inst.append("2")
+        if spec.get("const_first") and "T" in g and not spec["gdefault"]:
+            # the const parameter declared in front of the type parameter
+            ps[-2], ps[-1] = ps[-1], ps[-2]
+            inst[-2], inst[-1] = inst[-1], inst[-2]
     wh = ""
     if spec["where"] and "T" in g:
         wh = " where T: ::core::marker::Copy"
@@ -390,6 +394,10 @@ def core():
     for k, sc in enumerate(("pub struct N;", "pub trait N {}", "pub type N = u8;")):
         specs.append(dict(base, kind="struct" if k % 2 == 0 else "enum", gen="N" if k else "TN", traits=list(ALL8), entry="attr" if k % 2 else "derive", scope=sc, disc=False, dv=0,
                           variants=[{"style": "unit", "fields": []}, {"style": "tuple", "fields": ["arr", "u8"] + ([] if k else ["T"])}][(0 if k % 2 else 1):]))
+    specs.append(dict(base, kind="struct", gen="TN", traits=[t for t in ALL8 if t != "Default"], entry="attr", scope="pub struct N; pub trait T {}", const_first=True,
+                      variants=[{"style": "named", "fields": ["arr", "T", "u8"]}]))
+    specs.append(dict(base, kind="enum", gen="aTN", traits=list(ALL8), entry="derive", scope="pub type N = u8;", const_first=True, disc=False, dv=0,
+                      variants=[{"style": "unit", "fields": []}, {"style": "tuple", "fields": ["T", "arr", "str"]}]))
     # field types equal up to the lifetime (`&'a T` next to `&'b T`: listed known finding); the same lifetime twice is fine
     no_default = [t for t in ALL8 if t != "Default"]
     specs.append(dict(base, kind="struct", gen="abT", traits=no_default, variants=[{"style": "tuple", "fields": ["refaT", "refbT"]}]))
